@@ -221,6 +221,24 @@ def run(ctx):
         except Exception as ex:
             ctx.impl_violation(f"{name_}: raised {type(ex).__name__}: {ex}", dict(case=name_, dtype=np.dtype(dt).name))
         ctx.case((name_, "narrow dtype"), nontrivial=True)
+    # ---- churn: unit cells built, used once and dropped (object addresses are re-used): the Bloch matrix at a generic k is the sum of this cell's bond terms
+    for name_, lc in zoo.churn(rng, 40 if ctx.tier == "quick" else 400, lo=4, hi=7):
+        P_, E_, C_ = zoo.raw(lc)
+        un = (1 - 2 * rng.integers(0, 2, size=len(E_))).astype(np.int8); Jn = np.array([1.0, 0.5, 2.0]); cn_ = rng.integers(0, 3, size=len(E_)).astype(np.int8)
+        kk = rng.uniform(-3, 3, size=2)
+        want = np.zeros((len(P_), len(P_)), dtype=complex)
+        for (a, b), cr, jj, uu in zip(E_, C_, Jn[cn_], un):
+            t_ = 0.5j * jj * uu * np.exp(1j * float(cr @ kk))
+            want[b, a] += t_; want[a, b] += np.conj(t_)
+        try:
+            got_k = ps.k_hamiltonian_generator(lc, cn_, un, Jn)(kk)
+            if got_k.shape != want.shape or not np.allclose(got_k, want, atol=1e-12, rtol=0):
+                ctx.impl_violation(f"{name_} ({len(P_)} sites, {len(E_)} bonds, built after other cells were dropped): the Bloch matrix at k = {kk.tolist()} is not the sum of this cell's bond terms",
+                                   dict(case=name_, k=kk.tolist(), lattice=zoo.lat_to_json(lc)))
+        except Exception as ex:
+            ctx.impl_violation(f"{name_}: raised {type(ex).__name__}: {ex}", dict(case=name_, lattice=zoo.lat_to_json(lc)))
+        ctx.case((name_, len(P_), len(E_), "churn"), nontrivial=True); ctx.count("churn_cells")
+        del lc
     outs = core.Driver().run_parallel(reqs)
     for (tag, l, Hk, qs), o in zip(meta, outs):
         brk = lambda what: ctx.corr_break(f"{tag}: {what}", dict(case=tag, lattice=zoo.lat_to_json(l)))
